@@ -79,6 +79,16 @@ def run(ctx):
                     [{"t": "fsizelimit", "n": 256}, login("c1", "u1", "p1"), {"t": "sleep", "n": 80}, {"t": "fsizeunlimit"},
                      {"t": "sleep", "n": 20}, login("c2", "u1", "p1"), {"t": "free"}], seed=3,
                     expect_idle={"u1": {"set": 2, "pw": "p1", "adm": False, "aux": "orig"}}, expect_prop="C12", expect_key="failed-upgrade-damaged-record"))
+    # a dropped upgrade request is not a lost user: the dispatcher is held while 10 password changes and 6 logins of the
+    # upgradeable u1 queue up, so that logins are served while the update queue is full (their upgrade requests are dropped);
+    # on the idle agent the next login of u1 upgrades the record
+    for sd in (1, 2, 3):
+        st = [{"t": "send", "c": "w%d" % i, "k": "update", "u": "u3", "p": "p3", "a": False} for i in range(10)]
+        st += [login("l%d" % i, "u1", "p1") for i in range(6)]
+        st += [{"t": "free"}, {"t": "sleep", "n": 30}, login("late", "u1", "p1"), {"t": "free"}]
+        scs.append(scen("dropped-upgrade-then-login-%d" % sd, "local", st, gated=True, seed=sd,
+                        expect_idle={"u1": {"set": 2, "pw": "p1", "adm": False, "aux": "orig"}, "u3": {"set": 2, "pw": "p3", "adm": False, "aux": "orig"}},
+                        expect_prop="C12", expect_key="idle-upgrade-did-not-happen-or-damaged-record"))
     # up-to-date user and wrong passwords: nothing is rewritten at all
     scs.append(scen("noop-uptodate", "local", one(login("c1", "u3", "p3")), expect_unchanged=True, expect_prop="C12",
                     expect_key="login-rewrote-up-to-date-record"))
